@@ -388,6 +388,17 @@ pub struct Server {
     pub pages: VecDeque<Page>,
     buf: Vec<u8>,
     pub obs: Rc<RefCell<Obs>>,
+    /// think time before every frame (virtual ms); 0 = answer at once
+    delay_ms: u64,
+    /// frames scheduled but not yet due: (due time, bytes; None = close the connection)
+    outq: VecDeque<(tokio::time::Instant, Option<Vec<u8>>)>,
+}
+
+thread_local! {
+    /// think time of the scripted servers created from now on (set by a lane around a scenario run): every
+    /// response frame is sent that many virtual milliseconds after the previous one.  With a per-`next()`
+    /// time-out T and a think time below T no wait ever reaches its deadline, so the outcome must not change.
+    pub static SERVER_DELAY_MS: std::cell::Cell<u64> = std::cell::Cell::new(0);
 }
 
 fn child<'a>(t: &'a StructureTag, i: usize) -> Option<&'a StructureTag> {
@@ -462,11 +473,30 @@ fn decode_fields(op: &StructureTag) -> String {
 impl Server {
     pub fn new(net: Net, pages: &[Page], obs: Rc<RefCell<Obs>>) -> Server {
         // `Fail` pages are never seen by the server: the client cannot submit them
-        Server { net, pages: pages.iter().filter(|p| **p != Page::Fail).cloned().collect(), buf: vec![], obs }
+        Server { net, pages: pages.iter().filter(|p| **p != Page::Fail).cloned().collect(), buf: vec![], obs,
+                 delay_ms: SERVER_DELAY_MS.with(|d| d.get()), outq: VecDeque::new() }
+    }
+
+    /// send the scheduled frames that have become due
+    fn flush_due(&mut self) {
+        let now = tokio::time::Instant::now();
+        while let Some((due, _)) = self.outq.front() {
+            if *due > now {
+                break;
+            }
+            match self.outq.pop_front().unwrap().1 {
+                Some(b) => self.net.send(&b),
+                None => {
+                    self.net.close();
+                    self.obs.borrow_mut().closed_by_server = true;
+                }
+            }
+        }
     }
 
     /// read what the client has written; answer every SearchRequest with the next page script
     pub fn serve(&mut self) {
+        self.flush_due();
         let w = self.net.take_written();
         if w.is_empty() {
             return;
@@ -512,6 +542,23 @@ impl Server {
 
     fn answer(&mut self, id: i64) {
         let Some(Page::Script(l)) = self.pages.pop_front() else { return };
+        if self.delay_ms > 0 {
+            // a slow server: one frame every `delay_ms`, starting `delay_ms` after the request arrived
+            let mut due = self.outq.back().map(|x| x.0).unwrap_or_else(tokio::time::Instant::now).max(tokio::time::Instant::now());
+            for r in l {
+                due += Duration::from_millis(self.delay_ms);
+                match r {
+                    Recv::Item(i) => self.outq.push_back((due, Some(envelope(id, item_op(&i), &i.ctls)))),
+                    Recv::Done(d) => self.outq.push_back((due, Some(envelope(id, done_op(&d), &d.ctls)))),
+                    Recv::Closed => {
+                        self.outq.push_back((due, None));
+                        return;
+                    }
+                    Recv::Timeout => return,
+                }
+            }
+            return;
+        }
         for r in l {
             match r {
                 Recv::Item(i) => self.net.send(&envelope(id, item_op(&i), &i.ctls)),
@@ -1142,7 +1189,63 @@ pub fn script_refs(pages: &[Page]) -> Option<(Vec<Vec<u8>>, Vec<Vec<u8>>)> {
     None
 }
 
+/// A caller that gives up on one wait (`select!` against something else, its own timer) and calls `next()` again
+/// later still gets exactly the items the server sent, in order, then the end, and `finish()` the server's
+/// result: a pending `next()` on a stream WITHOUT adapters that is dropped must not lose the stream's place.
+/// (Scripted through scen.rs: `NextCancel` polls `next()` once and drops it while pending.)
+fn cancelled_waits(thorough: bool, rng: &mut Rng, out: &mut Out) {
+    use crate::scen::{run_script, to_model_events, OpKind, Step};
+    let n = if thorough { 400 } else { 40 };
+    for k in 0..n {
+        let items = rng.range(1, 5) as usize;
+        let tmo = if rng.chance(1, 3) { Some(60_000u64) } else { None };
+        let mut sc = vec![Step::Issue { kind: OpKind::Search, tmo_ms: tmo }, Step::Settle];
+        let mut cancels = 0;
+        for _ in 0..items {
+            // zero or more abandoned waits while nothing is queued, then the item, then the real call
+            for _ in 0..rng.below(3) {
+                sc.push(Step::NextCancel(0));
+                sc.push(Step::Settle);
+                cancels += 1;
+            }
+            sc.push(Step::Send { id: 1, op: *rng.pick(&[4u64, 19, 25]), good: false });
+            sc.push(Step::Settle);
+            if rng.chance(1, 3) {
+                sc.push(Step::NextCancel(0)); // an item is queued: this poll is Ready and delivers it
+            } else {
+                sc.push(Step::Next(0));
+            }
+            sc.push(Step::Settle);
+        }
+        for _ in 0..rng.below(2) + 1 {
+            sc.push(Step::NextCancel(0));
+            sc.push(Step::Settle);
+            cancels += 1;
+        }
+        sc.push(Step::Send { id: 1, op: 5, good: true });
+        sc.push(Step::Settle);
+        sc.push(Step::Next(0));
+        sc.push(Step::Settle);
+        sc.push(Step::Finish(0));
+        sc.push(Step::Settle);
+        let o = run_script(&sc);
+        let ev = to_model_events(&o.trace);
+        let label = format!("cancel#{} items={} abandoned-waits={} timeout={:?}", k, items, cancels, tmo);
+        out.case(&format!("{} {}", label, ev), cancels > 0);
+        out.stat("cancelled-waits.scenarios");
+        out.m(&format!("conn.trace {}", ev), "accept");
+        let sent: Vec<String> = o.trace.iter().filter(|t| t.starts_with("srv send 1 ")).map(|t| t.split(' ').nth(4).unwrap_or("?").to_string()).collect();
+        let got: Vec<String> = o.trace.iter().filter(|t| t.starts_with("cli next 0 ")).map(|t| t.rsplit(' ').next().unwrap_or("?").to_string()).collect();
+        let mut want: Vec<String> = sent[..sent.len() - 1].iter().map(|t| format!("item:entry:{}", t)).collect();
+        want.push(format!("item:done:{}", sent[sent.len() - 1]));
+        out.r(&format!("streams.cancelled-wait-loses-nothing {}", label), got == want, &format!("server sent tokens {:?}; next() returned {:?} ; trace: {}", sent, got, ev));
+        let fin = o.trace.iter().find(|t| t.starts_with("cli finished 0 ")).cloned().unwrap_or_default();
+        out.r(&format!("streams.cancelled-wait-finish-returns-server-result {}", label), fin == "cli finished 0 rc=0", &format!("{} ; trace: {}", fin, ev));
+    }
+}
+
 pub fn run(thorough: bool, mut rng: Rng, mut out: Out) {
+    cancelled_waits(thorough, &mut rng, &mut out);
     let mut toks = Toks(100);
     let calls_alpha = [Call::Next, Call::Finish, Call::State];
     let kinds = [K::E, K::R, K::I];
